@@ -197,4 +197,43 @@ def pathCheck (valid : S → Bool) (checkMotion : S → S → Bool) : List S →
   | [] => true
   | s0 :: rest => if valid s0 then checkLoop checkMotion s0 rest else false
 
+/-! ### the approximate-solution bookkeeping the tree planners share
+
+`RRT`, `TRRT`, `pRRT`, `LazyRRT`, `EST`, `ProjEST`, `KPIECE1`, `STRIDE`, `PDST`, `RLRT`, `SST`, … all carry the same few lines:
+
+    double dist = 0.0; bool sat = goal->isSatisfied(motion->state, &dist);
+    if (sat) { approxdif = dist; solution = motion; break; }
+    if (dist < approxdif) { approxdif = dist; approxsol = motion; }
+    …
+    if (solution == nullptr) { solution = approxsol; approximate = true; }
+    if (solution != nullptr) { pdef_->addSolutionPath(path(solution), approximate, approxdif, name); solved = true; }
+    return {solved, approximate};
+
+`M` is whatever names a motion (a tree index); `goalDist` is `distanceGoal` of its state. -/
+
+structure Tracker (M D : Type) where
+  solution : Option M := none
+  approxsol : Option M := none
+  approxdif : D
+
+/-- the test made on one newly added motion (no effect once an exact solution was found: the loop has been left) -/
+def Tracker.observe {M D : Type} (goalDist : M → D) (lt : D → D → Bool) (threshold : D) (t : Tracker M D) (m : M) :
+    Tracker M D :=
+  match t.solution with
+  | some _ => t
+  | none =>
+    let dist := goalDist m
+    if lt dist threshold then { t with solution := some m, approxdif := dist }
+    else if lt dist t.approxdif then { t with approxsol := some m, approxdif := dist }
+    else t
+
+/-- the epilogue: which motion's path is reported, with which flag and difference, and the status -/
+def Tracker.finish {M D : Type} (t : Tracker M D) : Option (M × Bool × D) × Status :=
+  match t.solution with
+  | some m => (some (m, false, t.approxdif), Status.ofFlags true false)
+  | none =>
+    match t.approxsol with
+    | some m => (some (m, true, t.approxdif), Status.ofFlags true true)
+    | none => (none, Status.ofFlags false true)
+
 end OmplModel.PlannerReport
